@@ -53,7 +53,7 @@ def run(ctx):
             ok = old is not None and all((o, v) in allowed for o in old)
             ctx.ob('R18.1', f'{owner_fn(prog, p).split("::")[-1]}|{"+".join(sorted(old)) if old else "?"}->{v}', ok,
                    f'Allocation.status := {v} under old state {sorted(old) if old else old}; allowed transitions {sorted(allowed)}', b.loc(bi, s))
-    ctx.floor('R18.1', n, 7, 'writes of Allocation.status')
+    ctx.floor('R18.1', n, 4, 'writes of Allocation.status')
     ctx.ob('R18.1', 'writers', writers == {SYNC, ISEC}, f'Allocation.status is written only by sync_allocation_status and increase_status_error_counter (observed {sorted(x.split("::")[-1] for x in writers)})', None)
     for o, b, bi, s in construct_sites(prog, ALLOC):
         if is_test_util(o) or ' as core::clone::Clone>' in o or '::_::' in o:
@@ -76,9 +76,9 @@ def run(ctx):
     owners = set(o for o, b, bi in call_sites(prog, STREAMER + 'on_allocation_started') if not is_test_util(o))
     ctx.ob('R18.2', 'started|emitter', owners == {SYNC}, f'on_allocation_started is emitted only by sync_allocation_status (observed {sorted(owners)})', None)
     fin_writes = [(bi, s, v) for bi, s, v, pl in state_writes(sy, AS) if v in FIN]
-    ctx.floor('R18.2', len(fin_writes), 3, 'finishing writes in sync_allocation_status')
+    ctx.floor('R18.2', len(fin_writes), 1, 'finishing writes in sync_allocation_status')
     somes = [bi for o, b, bi, s in construct_sites(prog, OPTION, 'Some') if b.path == sy.path and _is_af(sy, s)]
-    ctx.floor('R18.2', len(somes), 3, 'Some(AllocationFinished) constructions')
+    ctx.floor('R18.2', len(somes), 1, 'Some(AllocationFinished) constructions')
     fwb = [x[0] for x in fin_writes]
     for bi, s, v in fin_writes:
         ok, wit = must_pass(sy, [bi], somes)
@@ -140,7 +140,7 @@ def run(ctx):
     ctx.require(hm, 'R18.4: handle_message coroutine')
     hb = hm[0]
     gd = hb.call_blocks(PROC + 'get_data_from_worker')
-    ctx.floor('R18.4', len(gd), 2, 'get_data_from_worker calls')
+    ctx.floor('R18.4', len(gd), 1, 'get_data_from_worker calls')
     for g in gd:
         keys = [k for k, d in scrutinees(hb, OPTION).items() if d['root'] == hb.term[g]['d'][0]]
         ctx.require(keys, 'R18.4: Option of get_data_from_worker not matched')
